@@ -548,7 +548,9 @@ func TestVerif_C20Sched(t *testing.T) {
 	if verifh.Thorough() {
 		letters = append(letters, [][]string{{"op", "aerr", "h0"}}, [][]string{{"op", "unsat", "h0"}}, [][]string{{"op", "req", "h1"}})
 	}
-	depth := verifh.Scale(3, 5)
+	// (thorough: depth 4 over 13 letters; the driver's transcript of the cases that show the known finding
+	// ready-while-announce-in-flight — about a third of them — has to stay below the orchestrator's 64 MB limit)
+	depth := verifh.Scale(3, 4)
 	var rec func(prefix [][]string, d int)
 	rec = func(prefix [][]string, d int) {
 		if d == 0 {
@@ -579,7 +581,7 @@ func TestVerif_C20Sched(t *testing.T) {
 			rec2(append(prefix[:len(prefix):len(prefix)], l...), d-1)
 		}
 	}
-	rec2(nil, verifh.Scale(4, 6))
+	rec2(nil, verifh.Scale(4, 5))
 	// (a3) eviction of the cached blob under a live control, then a new request (Eject + Add in one event),
 	// with the completion event before the eviction, after the re-request, or never; every 2-letter continuation
 	for when := 0; when < 3; when++ {
@@ -603,7 +605,7 @@ func TestVerif_C20Sched(t *testing.T) {
 	}
 	// (b) random long schedules over two torrents
 	rnd := verifh.NewRand(verifh.Seed(), "c20sched")
-	for n := 0; n < verifh.Scale(300, 15000); n++ {
+	for n := 0; n < verifh.Scale(300, 8000); n++ {
 		var ops [][]string
 		for j := 0; j < 4+rnd.Intn(30); j++ {
 			h := fmt.Sprintf("h%d", rnd.Intn(c20NTor))
